@@ -9,7 +9,7 @@
    of reading one element ahead"): before the repair List.Top used iterator.FirstN, whose read-ahead
    of one element of ITS input made numbers(100000000000).accept(x->x<5).top(5).size() scan the whole
    source; C08_top_no_read_ahead below is the statement that was false for that code. *)
-From P2 Require Import Base.Prelude Lib.Stream Lib.StreamProofs.
+From P2 Require Import Base.Prelude Lib.Stream Lib.StreamProofs Lib.StreamRefine Lib.StreamRefineCount.
 Require Import Lia.
 Local Open Scope Z_scope.
 
@@ -100,6 +100,39 @@ Proof. exact drain_one. Qed.
 Theorem C08_multiuse_read_ahead_cost : forall id f p q,
   (count id (fst (drain f p q)) <= occ_pipe id p * snd (drain f p q))%nat.
 Proof. exact drain_count. Qed.
+
+(* ---------------------------------------------------------------- the lazy machine refines the eager specification
+   "model = specification", what c08_is checks per case, here for all cases: for every pipeline p (all
+   stages, +, cross, merge, pass-through constructs), every consumer t, all sources and closures: whenever
+   the eager prefix semantics decides the consumer's result on the first N elements of the sources
+   (spec_term t (spec_pipe N p) = Some o; in particular for the least such N found by spec_need), the lazy
+   machine returns exactly o for every fuel from some bound on (C08_steps_bound: the number of steps of
+   the run), and every closure id has run at most spec_bound N t p id times: once more than there are
+   items in its stage's input on that prefix.  Nothing behind the prefix matters
+   (C08_late_errors_invisible, C08_source_length_irrelevant). *)
+Theorem C08_run_refines_spec : forall id p t N o,
+  spec_term t (spec_pipe N p) = Some o ->
+  exists F, forall fuel, (F <= fuel)%nat -> exists l n, run fuel t p = (l, o, n) /\
+    (count id l <= spec_bound N t p id)%nat.
+Proof. exact run_refines_spec_bound. Qed.
+
+(* ... in the form c08_is evaluates it: the result and the bound for the least deciding prefix *)
+Theorem C08_run_refines_spec_need : forall id B p t N o,
+  spec_need B t p = Some (N, o) ->
+  exists F, forall fuel, (F <= fuel)%nat -> exists l n, run fuel t p = (l, o, n) /\
+    (count id l <= spec_bound N t p id)%nat.
+Proof. exact run_refines_spec_need_bound. Qed.
+
+(* the value part alone *)
+Theorem C08_run_value_agrees : forall p t N o,
+  spec_term t (spec_pipe N p) = Some o ->
+  exists F, forall fuel, (F <= fuel)%nat -> exists l n, run fuel t p = (l, o, n).
+Proof. exact run_refines_spec. Qed.
+
+(* the prefix found by the specification's search (c08_is uses spec_need) decides the result *)
+Theorem C08_spec_need_decides : forall B t p N o,
+  spec_need B t p = Some (N, o) -> spec_term t (spec_pipe N p) = Some o.
+Proof. exact spec_need_sound. Qed.
 
 (* ---------------------------------------------------------------- pass-through constructs
    A lazy list that is the value of try/catch, a let binding, an if or switch branch, a closure or func
@@ -215,6 +248,11 @@ Example C08_merge_first :
   = ([Ev 5 [0]; Ev 6 [0]; Ev 7 [0; 1]; Ev 2 [0]], OInt 0, 3%nat).
 Proof. vm_compute. reflexivity. Qed.
 
+(* the hypothesis of C08_run_refines_spec holds, e.g. numbers(10^11).map(x->x).present(x->x=5) is decided by 6 elements *)
+Example C08_refines_nonvacuous :
+  spec_need 400 (TPresent 2 ex_is5) (PStage (SMap 1 ex_id) (PNumbers ex_big)) = Some (6%nat, OBool true).
+Proof. vm_compute. reflexivity. Qed.
+
 Print Assumptions C08_build_is_free.
 Print Assumptions C08_unconsumed_is_free.
 Print Assumptions C08_demand_bound.
@@ -233,3 +271,7 @@ Print Assumptions C08_merge_operand_read_ahead_refuted.
 Print Assumptions C08_merge_operand_read_ahead_partial.
 Print Assumptions C08_through_is_identity.
 Print Assumptions C08_through_run.
+Print Assumptions C08_run_refines_spec.
+Print Assumptions C08_run_refines_spec_need.
+Print Assumptions C08_run_value_agrees.
+Print Assumptions C08_spec_need_decides.
